@@ -10,6 +10,11 @@ TB = ("Trusted: TLC 1.8.0; harness/wire.py (own protobuf codec); the projections
       "the transcription R1-R8 of the Jelly format in spec/JellyReader.tla (DESIGN.md 3.1); CPython.")
 
 CHECKS = {
+ "C20": ("fault_enumeration", "6 C20",
+         "Rejections (unsupported term, typed literal with the datatype table disabled, tuple ending early, unencodable inner term of a quoted triple, statement too large) are injected by the PyWriter model "
+         "(action SlotReject) at every slot and random positions, and enumerated for GraphStream over cause x slot x position; the real streams are driven catch-and-continue and the bytes judged by TLC against the accepted statements. "
+         "TLC also closes the rejection universes exhaustively (Good holds with the refusal guard, is violated without it).",
+         "TLC model checking + simulation of PyWriter with SlotReject, replayed catch-and-continue into real Streams + TLC trace judging (prefix validity)"),
  "C01": ("model_checking", "6 C01",
          "TLC closes the composition PyWriter o JellyReader (per-statement invariants Good/Mirrored/TablesBounded/BufBounded) on slice universes, i.e. for histories of any length within each slice; "
          "TLC-simulated behaviours of larger universes are replayed op by op into real Streams (model rows = real rows) and through the whole-sequence entry points; "
@@ -53,7 +58,7 @@ m = {
    "enable": "no source hooks in /repo: recorders are installed from /verif by wrapping functions at run time; ./check sets JELLY_RDF_PYJELLY_VERIF=1 and PYTHONPATH=/repo so the working tree (not the compiled copy in /venv) is imported",
    "baseline_off_cmd": "cd /repo && /venv/bin/python -m pytest -ra -q -p no:cacheprovider --timeout=900 --continue-on-collection-errors; rc=$?; git -C /repo checkout -- tests/integration_tests/test_examples/temp; exit $rc",
    "source_commits": [],
-   "fix_commits": ["caaa11c"],
+   "fix_commits": ["caaa11c", "ad129d3"],
    "add_only": True,
  },
  "engines": [
